@@ -604,9 +604,16 @@ func (m *Map) snapshot() ([]interface{}, []interface{}) { return m.keys, m.vals 
 type Pool struct {
 	New   func() interface{}
 	items [poolCap]interface{}
+	ids   [poolCap]uintptr
 	n     int
 	epoch uint32
 }
+
+// PoolIdentity, when set, maps a pooled object to the address of the memory
+// it lends out (for mat's workspaces: the backing array), so that the same
+// scratch memory put back twice is recognised even when it is wrapped in two
+// different header objects. 0 means unknown.
+var PoolIdentity func(x interface{}) uintptr
 
 const poolCap = 32
 
@@ -629,6 +636,7 @@ func (p *Pool) fresh(s *Sim) {
 		p.epoch = s.epoch
 		for i := range p.items {
 			p.items[i] = nil
+			p.ids[i] = 0
 		}
 		p.n = 0
 	}
@@ -649,7 +657,11 @@ func (p *Pool) Put(x interface{}) {
 		// before the release edge, so the writes are ordered like its own.
 		PoolPoison(x, pattern)
 	}
-	p.putEnd(s, g, x)
+	var id uintptr
+	if PoolIdentity != nil {
+		id = PoolIdentity(x) // reads the object: before the release edge
+	}
+	p.putEnd(s, g, x, id)
 }
 
 //go:norace
@@ -667,15 +679,16 @@ func (p *Pool) putBegin() (*Sim, *G, int) {
 }
 
 //go:norace
-func (p *Pool) putEnd(s *Sim, g *G, x interface{}) {
+func (p *Pool) putEnd(s *Sim, g *G, x interface{}, id uintptr) {
 	raceReleaseMerge(poolRaceAddr(x))
 	for i := 0; i < p.n; i++ {
-		if p.items[i] == x {
+		if p.items[i] == x || (id != 0 && p.ids[i] == id) {
 			s.stats.PoolDoublePut++
 		}
 	}
 	if s.cfg.PoolMode == PoolTape && p.n < poolCap {
 		p.items[p.n] = x
+		p.ids[p.n] = id
 		p.n++
 	}
 	s.event(g, -1, OpPoolPut, CodeDone)
@@ -726,7 +739,9 @@ func (p *Pool) get() (x interface{}, poison bool, pattern int) {
 	}
 	x = p.items[k-1]
 	p.items[k-1] = p.items[p.n-1]
+	p.ids[k-1] = p.ids[p.n-1]
 	p.items[p.n-1] = nil
+	p.ids[p.n-1] = 0
 	p.n--
 	raceAcquire(poolRaceAddr(x))
 	s.stats.PoolHit++
